@@ -198,6 +198,62 @@ def task_splitting(ctx):
     ctx.assume_note("A6: electronic-structure driver stubbed; force is an uninterpreted function of the coordinates")
 
 
+def replay_nad_step(model):
+    """Real SurfaceHoppingDynamics._do_integrator_step with real torch: one atom, force = -x, prescribed normal draws (randn_like
+    replaced by a recorder that hands them out in order); compared with the Bussi-Parrinello composition written out in floats."""
+    import torch
+    import seqm.MolecularDynamics as M
+    import seqm.NonadiabaticDynamics as N
+
+    torch.set_default_dtype(torch.float64)
+    sh = object.__new__(N.SurfaceHoppingDynamics)
+    torch.nn.Module.__init__(sh)
+    c1, c2, dt, minv = 0.9, 0.3, 0.5, 0.25
+    seen = {}
+    sh.__dict__.update(timestep=dt, step_offset=0, _tdc_method="hamiltonian_fd", _cache_old={"energies": torch.zeros(1, 2), "nac_dot": torch.zeros(1, 2, 2)}, _cache_new=None,
+                       _cache_prev_cis_amp=False, _electronic_substeps=1, _h5_writer=None, _active_states=torch.tensor([1]), _coords_prev=None, _mos_prev=None,
+                       post_hop_holdoff=torch.zeros(1, dtype=torch.int64), _trivial_crossing_mask=None, damp=10.0, langevin_c1=c1, langevin_c2=torch.full((1, 1, 1), c2))
+
+    def es(molecule, learned_parameters, **kw):
+        molecule.force = -molecule.coordinates.detach().clone()
+        sh._cache_new = {"energies": torch.zeros(1, 2), "cis_amp": None}
+        return sh._cache_new["energies"]
+
+    sh._compute_electronic_structure = es
+    sh._detect_crossings = lambda co, cn: None
+    sh._propagate_electronic = lambda co, cn, substeps=None: None
+    sh._after_electronic_update = lambda molecule, excitation_energies=None, step=None: seen.__setitem__("v", molecule.velocities.clone())
+    mol = type("Mol", (), {})()
+    mol.coordinates = torch.tensor([[[0.3, -0.2, 0.1]]])
+    mol.velocities = torch.tensor([[[0.05, 0.02, -0.04]]])
+    mol.acc = torch.tensor([[[0.01, -0.03, 0.02]]])
+    mol.mass_inverse = torch.full((1, 1, 1), minv)
+    mol.force = torch.zeros(1, 1, 3)
+    x, v, a = [t.clone() for t in (mol.coordinates, mol.velocities, mol.acc)]
+    xi = [torch.tensor([[[0.7, -1.1, 0.4]]]), torch.tensor([[[-0.6, 0.2, 1.3]]])]
+    draws = []
+    saved_fd, saved_rn = N.compute_tdc_hamiltonian_fd, torch.randn_like
+    N.compute_tdc_hamiltonian_fd = lambda *a_, **k_: torch.zeros(1, 2, 2)
+    torch.randn_like = lambda t, **k_: (draws.append(1), xi[min(len(draws), 2) - 1].clone())[1]
+    try:
+        sh._do_integrator_step(0, mol, {})
+    finally:
+        N.compute_tdc_hamiltonian_fd, torch.randn_like = saved_fd, saved_rn
+    ACC = M.CONSTANTS.ACC_SCALE
+    v = c1 * v + c2 * xi[0]
+    v = v + 0.5 * a * dt
+    x = x + v * dt
+    a2 = -x * minv * ACC
+    v = v + 0.5 * a2 * dt
+    v = c1 * v + c2 * xi[1]
+    dv = float((mol.velocities - v).abs().max())
+    dx = float((mol.coordinates - x).abs().max())
+    ds = float((seen.get("v", mol.velocities) - v).abs().max())
+    return {"reproduced": bool(max(dv, dx, ds) > 1e-12 or len(draws) != 2), "c1": c1, "c2": c2, "dt": dt, "draws": len(draws), "velocity_after_step": mol.velocities.reshape(-1).tolist(),
+            "velocity_expected_O(1/2)B(1/2)A B(1/2)O(1/2)": v.reshape(-1).tolist(), "max_abs_velocity_difference": dv, "max_abs_coordinate_difference": dx,
+            "max_abs_difference_of_the_velocity_seen_by_the_electronic_update": ds}
+
+
 def nad_nuclear_step(ctx, thermostat):
     """The nuclear part of the surface-hopping engine's _do_integrator_step (real code; electronic-structure call, coupling,
     crossing detection, electronic propagation and hop handling replaced by recorders): exactly velocity Verlet, with the
@@ -272,10 +328,11 @@ def nad_nuclear_step(ctx, thermostat):
             ctx.prove("%s.no-random-draw-without-a-damping-time@p%d" % (tag, p.path_id), E.const(len(draws) == 0))
         xs, vs, as_ = _spec_step(x0, v0, a0, real("dt"), mol.mass_inverse, ACC, thermo)
         for c in range(3):
-            ctx.prove_eq("%s.x'[%d]@p%d" % (tag, c, p.path_id), mol.coordinates.a[0, 0, c], xs.a[0, 0, c], pc=p.pc)
-            ctx.prove_eq("%s.v'[%d]@p%d" % (tag, c, p.path_id), mol.velocities.a[0, 0, c], vs.a[0, 0, c], pc=p.pc)
+            rp = replay_nad_step if thermostat else None
+            ctx.prove_eq("%s.x'[%d]@p%d" % (tag, c, p.path_id), mol.coordinates.a[0, 0, c], xs.a[0, 0, c], pc=p.pc, replay=rp)
+            ctx.prove_eq("%s.v'[%d]@p%d" % (tag, c, p.path_id), mol.velocities.a[0, 0, c], vs.a[0, 0, c], pc=p.pc, replay=rp)
             ctx.prove_eq("%s.acc'[%d]@p%d" % (tag, c, p.path_id), mol.acc.a[0, 0, c], as_.a[0, 0, c], pc=p.pc)
-            ctx.prove_eq("%s.electronic-update-sees-the-completed-nuclear-step[%d]@p%d" % (tag, c, p.path_id), sh._v_at_electronic_update.a[0, 0, c], vs.a[0, 0, c], pc=p.pc)
+            ctx.prove_eq("%s.electronic-update-sees-the-completed-nuclear-step[%d]@p%d" % (tag, c, p.path_id), sh._v_at_electronic_update.a[0, 0, c], vs.a[0, 0, c], pc=p.pc, replay=rp)
         ctx.prove("%s.hop-handling-comes-after-the-force-evaluation-and-the-propagation@p%d" % (tag, p.path_id),
                   E.const("electronic-update" in seq and "force" in seq and "propagate" in seq and seq.index("electronic-update") > max(i_ for i_, q in enumerate(seq) if q in ("force", "propagate"))))
     ctx.assume_note("A6: force is an uninterpreted function of the coordinates; one trajectory, one atom; tdc method hamiltonian_fd")
